@@ -102,9 +102,6 @@ KF_TomlLeadingQuote(r) == /\ r.tv /\ r.q \in {"basic", "double"} /\ r.err = ""
                           /\ \/ r.s = <<DQ>> /\ r.back = <<>>
                              \/ Len(r.s) >= 2 /\ r.s[1] = DQ /\ r.s[2] = DQ /\ r.back = SubSeq(r.s, 3, Len(r.s) - 2)
 
-\* ini-percent-interpolation: IniConfigParser reads the file with configparser's default BasicInterpolation: a lone %
-\* aborts the run ("'%' must be followed by '%' or '('"), %% comes back as %.
-KF_IniPercent(r) == r.fmt \in {"cfg", "ini"} /\ Has(r.s, "%") /\ (r.err # "" \/ r.back # r.s)
 \* empty-triple-quoted: the empty text written '''''' or """""" is not recognised as quoted (is_quoted's triple
 \* pattern needs at least one character of content): unquote_str returns the six quote characters.
 KF_EmptyTripleQuoted(r) == r.q \in {"tsingle", "tdouble"} /\ r.s = <<>> /\ r.err = "" /\ r.u = r.w
@@ -115,7 +112,7 @@ Report(i) ==
     [i |-> i, s |-> r.s, fmt |-> r.fmt, q |-> r.q, w |-> r.w, back |-> r.back, u |-> r.u, err |-> r.err, tv |-> r.tv,
      written_ok |-> Applicable(r.s, st) /\ r.w = Encode(r.s, st),
      identity   |-> r.err = "" /\ r.back = r.s /\ r.u = r.s,              \* u: _configparser.unquote_str(w) itself
-     kf         |-> KF_IniReadAsToml(r) \/ KF_TomlLeadingQuote(r) \/ KF_EmptyTripleQuoted(r) \/ KF_IniPercent(r),
+     kf         |-> KF_IniReadAsToml(r) \/ KF_TomlLeadingQuote(r) \/ KF_EmptyTripleQuoted(r),
      lossless   |-> Decode(Encode(r.s, st), st) = r.s]
 
 Emit == row > 0 =>
